@@ -16,7 +16,7 @@ import vlib
 PROP = "C08"
 TSAN_SOURCES = ["C08_tsan_loop.cc", "C08_tsan_conn.cc", "C08_tsan_base.cc"]
 THOROUGH_ROUNDS = 40                                  # per scenario and per poller (epoll, poll)
-TSAN_WRAP = ["__tsan_read8", "__tsan_write4", "__tsan_read4"]       # forced schedules (harness/C08_tsan.h)
+TSAN_WRAP = ["__tsan_read8", "__tsan_write4", "__tsan_read4", "fwrite_unlocked"]       # forced schedules (harness/C08_tsan.h)
 FAILFAST_OPS = ["loop", "updateChannel", "removeChannel", "hasChannel", "pool_start", "pool_getNextLoop",
                 "pool_getLoopForHash", "pool_getAllLoops", "conn_connectEstablished", "conn_connectDestroyed",
                 "server_start", "server_dtor"]
